@@ -96,7 +96,10 @@ def decode(
         header, payload = _decode_jws(_value, key, algorithms, registry)
 
     try:
-        claims: Claims = json.loads(payload, cls=decoder_cls)
+        # the claims set is a UTF-8 JSON text (RFC 7519, section 7.2): json.loads
+        # would sniff UTF-16 / UTF-32 from bytes and accept the NaN / Infinity
+        # constants that JSON does not have
+        claims: Claims = json.loads(payload.decode("utf-8"), cls=decoder_cls, parse_constant=_reject_constant)
     except (TypeError, ValueError, RecursionError):
         raise InvalidPayloadError()
 
@@ -105,6 +108,10 @@ def decode(
         raise InvalidPayloadError()
 
     return Token(header, claims)
+
+
+def _reject_constant(name: str) -> None:
+    raise ValueError(f"{name} is not JSON")
 
 
 def _decode_jwe(
